@@ -14,5 +14,12 @@ class BoundCallable(CanCustomize, object):
             # Update wrapper if we can, but not fatal if we can't
             pass
 
+        # Executors created by chaining with_* calls on this callable inherit
+        # the name of the bound executor, as if chained on the executor itself.
+        for name_attr in ("_name", "_CustomizableThreadPoolExecutor__name"):
+            if hasattr(executor, name_attr):
+                self._name = getattr(executor, name_attr)
+                break
+
     def __call__(self, *args, **kwargs):
         return self.__executor.submit(self.__fn, *args, **kwargs)
